@@ -736,41 +736,50 @@ func evalTwoSnap(c *Case) error {
 	if !c.Pre.NoDup || !c.Pre.Consistent || !c.Pre.HashSound {
 		return nil
 	}
-	// did round 1 succeed while writing an OLDER version than the one it listed?
-	older := map[string]bool{}
+	// which objects did round 1 (having succeeded and advanced the index) leave in an outdated version because of
+	// the other snapshot?  older: the batch read returned an older version than the one listed and it was
+	// written; omitted: the batch read did not return the object at all while the secondary holds an outdated one
+	explained := map[string]bool{}
 	if c.Round.Err == "" {
-		lst := map[string]Item{}
+		lst, bat, sec := map[string]Item{}, map[string]Item{}, map[string]Item{}
 		for _, y := range c.Remote {
 			lst[key(y)] = y
 		}
 		for _, b := range c.Batch {
-			if y, ok := lst[key(b)]; ok && b.Mod < y.Mod && b.Body != y.Body {
-				for _, z := range c.Round.Final {
-					if key(z) == key(b) && z.Body == b.Body {
-						older[key(b)] = true
-					}
-				}
+			bat[key(b)] = b
+		}
+		for _, x := range c.Local {
+			sec[key(x)] = x
+		}
+		for k, y := range lst {
+			b, inBatch := bat[k]
+			x, inSec := sec[k]
+			switch {
+			case c.Inst == "token" && inBatch && b.Mod < y.Mod && b.Body != y.Body:
+				explained[k] = true
+			case !inBatch && inSec && x.Body != y.Body && y.Mod > c.Last:
+				explained[k] = true
 			}
 		}
 	}
 	want, got := contentSet(c.Inst, c.Remote2), contentSet(c.Inst, c.Round2.Final)
-	bad, onlyOlder := "", true
+	bad, all := "", true
 	for k, b := range want {
 		if gb, ok := got[k]; !ok || gb != b {
 			bad = k
-			if !older[k] {
-				onlyOlder = false
+			if !explained[k] {
+				all = false
 			}
 		}
 	}
 	for k := range got {
 		if _, ok := want[k]; !ok {
-			bad, onlyOlder = k, false
+			bad, all = k, false
 		}
 	}
 	if bad != "" {
 		c.Oracle = "stale-after-two-snapshot-round:" + bad
-		c.Sig = map[string]interface{}{"kind": "stale-batch-read-sticks", "instance": c.Inst, "only_older_batch_versions": onlyOlder}
+		c.Sig = map[string]interface{}{"kind": "stale-batch-read-sticks", "instance": c.Inst, "only_outdated_batch_versions": all}
 	}
 	return nil
 }
@@ -783,7 +792,7 @@ func shrink(c Case) Case {
 			return ""
 		}
 		return fmt.Sprint(c.Sig["kind"], "|", c.Sig["cause"], "|", c.Sig["refused_with"], "|",
-			c.Sig["only_zero_hash_pairs_rewritten"], "|", c.Sig["only_older_batch_versions"], "|", c.Sig["round"])
+			c.Sig["only_zero_hash_pairs_rewritten"], "|", c.Sig["only_outdated_batch_versions"], "|", c.Sig["round"])
 	}
 	want := kind(&c)
 	if want == "" {
